@@ -136,7 +136,6 @@ package turbotunnel
 // Close is closeWithError(nil): closed afterwards, the first call succeeds, later ones report an error.
 //@ func (c *QueuePacketConn) Close() (r error)
 //@   props C17
-//@   flag nosafety
 //@   requires c != nil
 //@   assumes c.closed != nil && (oncedone(&c.closeOnce) <==> closed(c.closed))
 //@   ensures {closed-afterwards} closed(c.closed)
@@ -170,7 +169,7 @@ package turbotunnel
 // exchange and its two pumps (B1: no pump can be parked forever on its error report).
 //@ func (c *RedialPacketConn) exchange(conn net.PacketConn)
 //@   props C17
-//@   flag concurrent nosafety paired-select=exchange$1,exchange$2 watches=readErrCh,writeErrCh
+//@   flag concurrent paired-select=exchange$1,exchange$2 watches=readErrCh,writeErrCh
 //@   requires c != nil
 //
 // Each pump stops when the connection is closed and when the OTHER pump has failed (so that no pump survives the
@@ -207,7 +206,6 @@ package turbotunnel
 //
 //@ func (c *RedialPacketConn) Close() (r error)
 //@   props C17
-//@   flag nosafety
 //@   requires c != nil
 //@   assumes c.closed != nil && (oncedone(&c.closeOnce) <==> closed(c.closed))
 //@   ensures {closed-afterwards} closed(c.closed)
